@@ -1,7 +1,7 @@
 (* The definitions regenerated from pymoto/routines.py (GenC17.OCGen) are the committed model (Model/OC.v) for
    ALL arguments and every instance of the number signature.  A semantic change of the source (update formula,
    bisection step, stopping tests, gradient clipping, defaults) changes the generated term and breaks a lemma. *)
-From Coq Require Import ZArith List PrimFloat.
+From Coq Require Import ZArith List Bool PrimFloat.
 From Pymoto Require Import Model.Concat Model.OC.
 From GenC17 Require Import OCGen.
 Import ListNotations.
@@ -44,9 +44,31 @@ Section Bridge.
     if gen_while_test P (l1l2tol pr) l1 l2 then BisOutOfFuel else BisDone l1 l2 last.
   Proof. reflexivity. Qed.
 
+  (* the bracket-growing loop (fix of F19): the update it evaluates, clipped to the precomputed bounds, is the same
+     entry function as in the bisection; its lower bounds are oc_lower; one turn written with the generated pieces *)
+  Lemma gen_grow_elem_eq l2 mv xmn xmx x g :
+    gen_grow_elem P l2 (gen_lower P mv xmn x) (gen_upper P mv xmx x) x g = oc_elem P l2 mv xmn xmx x g.
+  Proof. reflexivity. Qed.
+
+  Lemma gen_lower_eq pr x :
+    map (fun q => gen_lower P (move pr) (bget P (bmin pr) (fst q)) (snd q)) (combine (seq 0 (length x)) x) = oc_lower P pr x.
+  Proof. reflexivity. Qed.
+
+  Lemma grow_step pr maxvol x g fuel l2 xn :
+    grow P pr maxvol x g (S fuel) l2 xn =
+    if gen_grow_test P maxvol (osum P xn) (any_above P xn (oc_lower P pr x)) l2
+    then let l2' := gen_grow_step P l2 in grow P pr maxvol x g fuel l2' (oc_xnew P pr l2' x g)
+    else GrowDone l2 xn.
+  Proof. reflexivity. Qed.
+
+  Lemma grow_exit pr maxvol x g l2 xn :
+    grow P pr maxvol x g 0 l2 xn =
+    if gen_grow_test P maxvol (osum P xn) (any_above P xn (oc_lower P pr x)) l2 then GrowOutOfFuel else GrowDone l2 xn.
+  Proof. reflexivity. Qed.
+
   (* one turn of the outer loop, written with the generated tests *)
-  Lemma oc_loop_step pr obs maxvol bfuel cum n it xval states f prev :
-    oc_loop P pr obs maxvol bfuel cum (S n) it xval states f prev =
+  Lemma oc_loop_step pr obs maxvol bfuel cum n it xval states f :
+    oc_loop P pr obs maxvol bfuel cum (S n) it xval states f =
     let fg := obs it states in
     cons_design xval states
       (if gen_tolf_test P (gen_rel_fchange P (fst fg) f) (tolf pr) then mkTrace [] [] StopTolF xval states
@@ -54,12 +76,17 @@ Section Bridge.
             | None => mkTrace [] [] StopValueError xval states
             | Some (g, _) =>
               cons_warn (gen_warn_test P (warn_eps pr) (omaxl P g))
-                (match bisect P pr maxvol xval (map (gen_clip_grad P) g) bfuel (l1init pr) (l2init pr) prev with
+                (let g' := map (gen_clip_grad P) g in
+                 match grow P pr maxvol xval g' bfuel (l2init pr) (oc_xnew P pr (l2init pr) xval g') with
+                 | GrowOutOfFuel => mkTrace [] [] StopOutOfFuel xval states
+                 | GrowDone l2g xng =>
+                 match bisect P pr maxvol xval g' bfuel (l1init pr) l2g (Some xng) with
                  | BisOutOfFuel => mkTrace [] [] StopOutOfFuel xval states
                  | BisDone _ _ None => mkTrace [] [] StopUnbound xval states
                  | BisDone _ _ (Some xn) =>
                      if gen_tolx_test P (gen_rel_stepsize P xval xn) (tolx pr) then mkTrace [] [] StopTolX xval states
-                     else oc_loop P pr obs maxvol bfuel cum n (S it) xn (write_back (length states) xn cum) (fst fg) (Some xn)
+                     else oc_loop P pr obs maxvol bfuel cum n (S it) xn (write_back (length states) xn cum) (fst fg)
+                 end
                  end)
             end).
   Proof. reflexivity. Qed.
